@@ -1201,6 +1201,10 @@ fn corpus() -> Vec<Case> {
         Case { config: cfg(1, 0), ops: vec![HOp::Add(1), HOp::Commit, HOp::Add(2), HOp::DeleteAll, HOp::Commit] },
         // F3: commit; delete_term(k); delete_all; add(k); commit; adds; commit
         Case { config: cfg(1, 0), ops: vec![HOp::Commit, HOp::DelTerm(Q::Id(7)), HOp::DeleteAll, HOp::Add(7), HOp::Commit, HOp::Add(8), HOp::Add(9), HOp::Add(10), HOp::Commit] },
+        // F3': the stale delete was already committed by the same writer
+        Case { config: cfg(1, 0), ops: vec![HOp::DelTerm(Q::Id(5)), HOp::DelTerm(Q::Id(7)), HOp::Commit, HOp::DeleteAll, HOp::Add(7), HOp::Commit] },
+        // F8: first delete of a re-created writer + merge of committed segments, no commit
+        Case { config: cfg(1, 0), ops: vec![HOp::Add(7), HOp::Add(8), HOp::Commit, HOp::Rollback, HOp::DelTerm(Q::Id(7)), HOp::Merge(1), HOp::DropReopen(true)] },
         // clean delete_all: equals replay
         Case { config: cfg(2, 1), ops: vec![HOp::Add(1), HOp::Add(2), HOp::Commit, HOp::DropReopen(true), HOp::DeleteAll, HOp::Add(3), HOp::Commit, HOp::Add(4), HOp::Rollback, HOp::DeleteAll, HOp::Commit] },
         // delete only earlier, same segment / other segment / committed segment
@@ -1239,7 +1243,7 @@ pub fn run(ctx: &mut Ctx) {
         let f = run_case(ctx, &c);
         report_findings(ctx, &c, f);
     }
-    let histories = ctx.budget(170, 5000);
+    let histories = ctx.budget(170, 3500);
     for k in 0..histories {
         let mut rng = ctx.rng.fork();
         let profile = match k % 10 { 0..=4 => 0, 5 | 6 => 1, 7 | 8 => 2, _ => 3 };
